@@ -31,7 +31,7 @@ class ModelMixin:
                      "ite", "unit", "is_none", "is_str", "is_int", "is_ref", "last", "ref", "allocated",
                      "held", "is_list_of_pos_int", "cls_id", "is_float", "sval", "ival", "dget", "singleton", "str", "is_bool", "is_dict", "is_list",
                      "setof", "contains", "prefix_of", "is_bytes", "is_cls", "map_int2str", "joinstr", "split", "lookup_global",
-                     "funcval", "seqmap", "extends", "only_changed", "UNSET", "unchanged", "unchanged_old", "cls_module_name", "all_reports", "empty_log", "count_failed", "suffix_of", "proj_a", "all_b", "all_tag", "card", "outside", "mro", "none_in", "is_concat", "none_missing", "is_subset", "union", "all_nat", "levelstr", "ascii_ok", "bytes_of", "str_contains", "codec_facts"}
+                     "funcval", "seqmap", "extends", "only_changed", "UNSET", "unchanged", "unchanged_old", "cls_module_name", "all_reports", "empty_log", "count_failed", "suffix_of", "proj_a", "all_b", "all_tag", "card", "outside", "mro", "none_in", "is_concat", "none_missing", "is_subset", "union", "all_nat", "levelstr", "ascii_ok", "bytes_of", "str_contains", "codec_facts", "is_tuple"}
 
     # ------------------------------------------------------------------ spec-mode calls
     def spec_call(self, e, st):
@@ -369,6 +369,14 @@ class ModelMixin:
                            str_split(z3.Concat(U, at, ls), at) == z3.Concat(z3.Unit(Val.StrV(U)), z3.Unit(Val.StrV(ls)))),
                 z3.Implies(allnat(L), z3.And(mapint(str_split(ls, slash)) == L, allint(str_split(ls, slash)),
                                              z3.Not(z3.Contains(ls, at)), ascii_ok(ls)))))
+        if name == "is_tuple":
+            v = a[0]
+            if v.k == "tuple":
+                return SV("bool", z3.BoolVal(True))
+            if v.k == "list":
+                return SV("bool", clsof(v.t) == self.ct.id("tuple"))
+            b = box(v)
+            return SV("bool", z3.And(Val.is_RefV(b), clsof(Val.rv(b)) == self.ct.id("tuple")))
         if name == "all_nat":
             sq = self.spec_builtin(st, "seq", [a[0]], e).t
             return SV("bool", z3.Function("all_nat", SeqV, B)(sq))
@@ -806,6 +814,21 @@ class ModelMixin:
             return self.ctxvar_method(st, recv, name, a)
         if k == "inst" and recv.h == "Lock":
             return self.lock_method(st, recv, name, a)
+        if k == "inst" and recv.h == "Context" and name == "run":
+            # Context.run(f, *args): f runs with this context current; its ContextVar changes stay in this Context object
+            cid = Val.iv(self.hget(st, "ctx_id_", recv.t))
+            saved = st.snap.get("$me")
+            st.snap = dict(st.snap)
+            st.snap["$me"] = cid
+            out = []
+            for r in self.call(st, pos[0], list(pos[1:]), kw, None, None, node):
+                r.st.snap = dict(r.st.snap)
+                if saved is None:
+                    r.st.snap.pop("$me", None)
+                else:
+                    r.st.snap["$me"] = saved
+                out.append(r)
+            return out
         if k in ("sset", "cset"):
             if name in ("union",):
                 return [Res(st, SV("sset", z3.SetUnion(self.as_sset(st, recv), self.as_sset(st, a[0]))))]
